@@ -330,7 +330,7 @@ def run_shard(spec):
 
 def check_floors(counters, evaluations, tier):
     msgs = []
-    for key, frac in (('episode', 0.2), ('interesting-episode', 0.1),
+    for key, frac in (('episode', 0.15), ('interesting-episode', 0.1),
                       ('needed-sigkill', 0.05),
                       ('episode-with-children', 0.03)):
         if counters.get(key, 0) < frac * evaluations:
